@@ -48,6 +48,7 @@
     C15_roundtrip_inner (+ _text, _at)   deduplicate_namespaces(node), to_string(element p), parse: deep_equal
                           to the standalone document of p BEFORE the call; p anywhere, by position
     C15_roundtrip_inner_same_path, _call_node   p not strictly inside the call's subtree: same raw path
+    C15_reachable_dedup_inner_full   the same for the erased tree of any store reached by parses and API calls
 -/
 import XotModel.Lemmas.ScopeDedup
 import XotModel.Lemmas.DedupFuel
@@ -955,5 +956,119 @@ example : ∃ t' ks' s p, deduplicateNamespaces c15RtEnv c15InnerDoc [0, 2] = so
     exact k10
 
 end InnerStart
+
+/-! ## END TO END for an inner start node: parse ∘ API edits ∘ `deduplicate_namespaces(node)` ∘ `to_string(element)` ∘ parse
+
+`C15_roundtrip_inner` on the erased tree of a store reached by parses and API calls: `C15_forest_dedup_refines_tree`
+∘ `C15_roundtrip_inner` ∘ `C01_reachable_representable_full` ∘ `C04_reach_full`.  (Fragments allowed: the C01
+domain needed is `RepresentableFragment`, no condition on the number of top-level elements.) -/
+
+section InnerStartFull
+
+/-- ⟦C15_reachable_dedup_inner_full⟧ `S` the store after any FULL history `cs` from `Xot::new()` with the tables
+    `env` (`parse` / `parse_fragment` of ARBITRARY texts and well-kinded extended API calls in any order;
+    consolidation never switched off), `r` any parentless tree of it with a document root and VALUES in the XML
+    domain for the tables of the store (`envOK`, `valueOK` everywhere, distinct `xml:id`s), `node` ANY node of `r`,
+    `S'` the store after the history extended by the step `deduplicate_namespaces(node)`.  The step answers `Ok`,
+    tables and xml:id index untouched, invariant; the tree `r'` that `r` has become is the tree model's answer on
+    the erased tree and stays in the C01 domain; and for EVERY element `p` of `r` (the `i`-th start node of the
+    erased tree: at, below, above or beside `node`) from which `to_string` found every prefix before the step:
+    after the step the `i`-th start node is the same element, `to_string` of it succeeds and `parse` of the text
+    — tables unchanged — gives its standalone document, `deep_equal` to the standalone document of `p` BEFORE the
+    step. -/
+theorem C15_reachable_dedup_inner_full (env : Env) (cs : List PCall) (hw : ∀ c ∈ cs, c.wellKinded)
+    (S : PStore) (hS : S = (PStore.init env).run cs) (hoff : S.forest.everOff = false)
+    (r : HTree) (hr : r ∈ S.forest.roots) (hdoc : r.value.isDocument = true) (henv : envOK S.env = true)
+    (hval : r.erase.allNodes (fun v _ => valueOK S.env v) = true)
+    (hid : (xmlIdValues S.env r.erase).Nodup)
+    (node : Nat) (hn : node ∈ r.handles)
+    (S' : PStore) (hS' : S' = (PStore.init env).run (cs ++ [.api (.deduplicateNamespaces node)])) :
+    ((PCall.api (.deduplicateNamespaces node)).run S).2 = .api .ok ∧ S'.env = S.env ∧ S'.index = S.index ∧
+    S'.forest.Inv ∧
+    ∃ (r' : HTree) (path : Path), r.pathOf node = some path ∧ r'.pathOf node = some path ∧
+      S'.forest.roots = S.forest.roots.map (fun y => if (y.pathOf node).isSome then r' else y) ∧
+      S'.forest.rootOf? node = some r' ∧
+      deduplicateNamespaces S.env r.erase path = some r'.erase ∧
+      RepresentableFragment S.env r'.erase = true ∧
+      (startPaths r'.erase).length = (startPaths r.erase).length ∧
+      ∀ (i : Nat) (q q' : Path) (name : Nat) (ks : List Tree),
+        (startPaths r.erase)[i]? = some q → (startPaths r'.erase)[i]? = some q' →
+        r.erase.at? q = some (.node (.element name) ks) → namesWritable S.env r.erase q = some true →
+        ∃ ks' s p X X', r'.erase.at? q' = some (.node (.element name) ks') ∧
+          stripNs (.node (.element name) ks') = stripNs (.node (.element name) ks) ∧
+          toXmlString S.env r'.erase q' = .ok s ∧
+          standalone r.erase q = some (.node .document [.node (.element name) (nsLeaves X ++ ks)]) ∧
+          standalone r'.erase q' = some (.node .document [.node (.element name) (nsLeaves X' ++ ks')]) ∧
+          parseString .document S.env s = .ok p ∧
+          p.tree = .node .document [.node (.element name) (nsLeaves X' ++ ks')] ∧ p.env = S.env ∧
+          deepEqual p.tree (.node .document [.node (.element name) (nsLeaves X ++ ks)]) = true ∧
+          deepEqual (.node (.element name) (nsLeaves X' ++ ks')) (.node (.element name) ks) = true := by
+  have hi' : S'.forest.Inv := by
+    rw [hS']
+    refine (C04_reach_full env _ (fun c hc => ?_)).1
+    rcases List.mem_append.mp hc with hc | hc
+    · exact hw c hc
+    · rw [List.mem_singleton.mp hc]; trivial
+  have hstep : S' = ⟨(S.forest.deduplicateNamespaces S.env node).1, S.env, S.index⟩ := by
+    rw [hS', hS]; simp [PStore.run, List.foldl_append, PStore.step, PCall.run, Forest.XCall.run, PStore.store]
+  subst hS
+  have hi := (C04_reach_full env cs hw).1
+  have hfrag : RepresentableFragment ((PStore.init env).run cs).env r.erase = true := by
+    rw [(C01_reachable_representable_full env cs hw hoff r hr _).1]
+    simp [henv, hdoc, hval, hid]
+  have h1 := Forest.fpxr_rootOf_of_mem hi.nodup hr hn
+  obtain ⟨path, h2⟩ := Forest.fpxd_rootOf_path h1
+  obtain ⟨r', a1, a2, a3, a4, a5, _, _, _, _⟩ := C15_forest_dedup_refines_tree _ hi
+    ((PStore.init env).run cs).env node r h1 path h2
+  have hfrag' := C15_representable_fragment _ r.erase r'.erase path hfrag a2
+  have hlen := (C15_serialises_everywhere _ r.erase r'.erase path hfrag a2).1
+  subst hstep
+  refine ⟨?_, rfl, rfl, hi', r', path, h2, a4, a5, a3, a2, hfrag', hlen, ?_⟩
+  · simp only [PCall.run, Forest.XCall.run, PStore.store]
+    rw [a1]
+  · intro i q q' name ks hq hq' hat hwq
+    exact C15_roundtrip_inner _ r.erase r'.erase path hfrag a2 i q q' hq hq' name ks hat hwq
+
+/-! Non-vacuity, closed: the history `c15FullCalls` of section EndToEndFull (parse `<r xmlns:p="urn:a"><p:a>t</p:a></r>`,
+    then `namespaces_mut(p:a).insert(p, urn:a)`: redundant declaration, handle 5).  Start node: the inner element
+    `p:a` (handle 3), position 2 of `startPaths`, path `[0, 1]` before and after; `to_string(p:a)` is
+    `<p:a xmlns:p="urn:a">t</p:a>` before and after the step `deduplicate_namespaces(doc)` (before: its own
+    declaration; after: the inherited one). -/
+
+example :
+    let S := (PStore.init Env.fresh).run c15FullCalls
+    let S' := (PStore.init Env.fresh).run (c15FullCalls ++ [.api (.deduplicateNamespaces 0)])
+    startPaths c15FullRoot.erase = [[], [0], [0, 1], [0, 1, 1]] ∧
+    S'.forest.roots.map (fun r' => startPaths r'.erase) = [[[], [0], [0, 1], [0, 1, 0]]] ∧
+    c15FullRoot.erase.at? [0, 1] = some (.node (.element 3) [.node (.namespace 2 2) [], .node (.text ['t']) []]) ∧
+    namesWritable S.env c15FullRoot.erase [0, 1] = some true ∧
+    toXmlString S.env c15FullRoot.erase [0, 1] = .ok "<p:a xmlns:p=\"urn:a\">t</p:a>".toList ∧
+    S'.forest.roots.map (fun r' => toXmlString S'.env r'.erase [0, 1]) =
+      [.ok "<p:a xmlns:p=\"urn:a\">t</p:a>".toList] := by decide +kernel
+
+example : ∃ r' ks' s p,
+    let S := (PStore.init Env.fresh).run c15FullCalls
+    let S' := (PStore.init Env.fresh).run (c15FullCalls ++ [.api (.deduplicateNamespaces 0)])
+    S'.forest.rootOf? 0 = some r' ∧ r'.erase.at? [0, 1] = some (.node (.element 3) ks') ∧
+      toXmlString S.env r'.erase [0, 1] = .ok s ∧ parseString .document S.env s = .ok p ∧ p.env = S.env ∧
+      deepEqual p.tree.kids.head! (.node (.element 3) [.node (.namespace 2 2) [], .node (.text ['t']) []]) = true := by
+  obtain ⟨_, _, _, _, r', path, _, _, b3, b4, _, _, _, hall⟩ :=
+    C15_reachable_dedup_inner_full Env.fresh c15FullCalls (by decide) _ rfl (by decide +kernel)
+      c15FullRoot (by decide +kernel) rfl (by decide +kernel) (by decide +kernel) (by decide +kernel)
+      0 (by decide) _ rfl
+  have hroots : ((PStore.init Env.fresh).run (c15FullCalls ++ [.api (.deduplicateNamespaces 0)])).forest.roots.map
+      (fun r' => startPaths r'.erase) = [[[], [0], [0, 1], [0, 1, 0]]] := by decide +kernel
+  have hr0 : ((PStore.init Env.fresh).run c15FullCalls).forest.roots = [c15FullRoot] := by decide +kernel
+  rw [b3, hr0] at hroots
+  have hp0 : (c15FullRoot.pathOf 0).isSome = true := by decide
+  simp only [List.map_cons, List.map_nil, hp0, if_true, List.cons.injEq, and_true] at hroots
+  obtain ⟨ks', s, p, X, X', k1, _, k3, _, _, k6, k7, k8, _, k10⟩ :=
+    hall 2 [0, 1] [0, 1] 3 [.node (.namespace 2 2) [], .node (.text ['t']) []] (by decide) (by rw [hroots]; rfl)
+      (by decide) (by decide +kernel)
+  refine ⟨r', ks', s, p, b4, k1, k3, k6, k8, ?_⟩
+  rw [k7]
+  exact k10
+
+end InnerStartFull
 
 end XotModel.Props
